@@ -54,9 +54,22 @@ def gen_boundary(rng):
 
 def gen_sensors(rng, boundary):
     n = int(rng.integers(4, 61))
-    cls = str(rng.choice(["uniform", "clustered", "near-collinear", "grid", "grid-jitter", "with-outside"]))
+    cls = str(rng.choice(["uniform", "clustered", "near-collinear", "grid", "grid-jitter", "with-outside", "right-angled", "right-angled"]))
     hull = MV.convex_hull(boundary)
     c = hull.mean(axis=0)
+    if cls == "right-angled":
+        # arrays laid out along two perpendicular lines / inside a right-angled triangle: two sensors are the extremes in
+        # both x and y, one side of the sensors' hull is a diagonal of their bounding box, a corner of the box is empty
+        n = int(rng.integers(4, 16))
+        a, b = float(rng.uniform(0.25, 0.5)), float(rng.uniform(0.25, 0.5))
+        sx, sy = float(rng.choice([-1, 1])), float(rng.choice([-1, 1]))
+        pts = [[0.0, 0.0], [a, 0.0], [0.0, b]]
+        while len(pts) < n:
+            u, v = rng.uniform(0.02, 0.98, 2)
+            if u + v < 0.95:                               # strictly inside the triangle, off its hypotenuse
+                pts.append([a * u, b * v] if rng.random() < 0.6 else ([a * u, 0.0] if rng.random() < 0.5 else [0.0, b * v]))
+        p = c + (np.array(pts) - [a / 3, b / 3]) * [sx, sy] + rng.normal(0, 1e-6, (n, 2)) * (rng.random() < 0.5)
+        return p, cls
     if cls in ("uniform", "with-outside"):
         p = c + rng.uniform(-0.55, 0.55, (n, 2))
         if cls == "with-outside":
